@@ -78,12 +78,12 @@ var propTable = map[string]*propSpec{
 	},
 	"C04": {
 		ID:    "C04",
-		Rules: []string{"R-REGTABLE", "R-ARITY", "R-POS", "R-DIVZERO", "R-PANIC", "R-NARROW", "R-RECURSION", "R-ALLOC", "R-SIZECAP"},
+		Rules: []string{"R-REGTABLE", "R-ARITY", "R-POS", "R-DIVZERO", "R-PANIC", "R-NARROW", "R-RECURSION", "R-ALLOC", "R-SIZECAP", "R-ENCBUF"},
 		Explanation: "Decides structural necessary conditions of 'no Lua source or program can crash the embedding Go process', each of which flags a construct that is a Go panic or a fatal error for some input: " +
 			"(R-ARITY) no registered Go function reads an argument slot beyond its declared arity without a guard; (R-POS) every normalised string position is proved in range before it indexes/slices the subject or is handed to the matcher/unpacker; " +
 			"(R-DIVZERO) every integer division has a divisor excluded from zero on every path; (R-PANIC) every explicit panic is below a recover that keeps its type on every call chain from the API, or is a table-listed internal invariant; " +
 			"(R-NARROW) every integer narrowing in the code generator is range-checked (implementation limits become compile errors, not wrapped encodings); (R-RECURSION) every call-graph cycle reachable from the API passes a structurally recognised depth guard or is table-listed with its bound; " +
-			"(R-ALLOC) every computed-size allocation is bounded by memory held, charged first, and — for lengths decoded from input — compared with the input left; a size the program chooses, or computes with + * <<, is proved non-negative on every path to the allocation (through callers and closure captures), since make/Grow/Repeat panic on a negative count; (R-SIZECAP) and it is compared with a constant or a held length on every path, because a charge bounds nothing in a context without a memory limit.",
+			"(R-ALLOC) every computed-size allocation is bounded by memory held, charged first, and — for lengths decoded from input — compared with the input left; a size the program chooses, or computes with + * <<, is proved non-negative on every path to the allocation (through callers and closure captures), since make/Grow/Repeat panic on a negative count; (R-SIZECAP) and it is compared with a constant or a held length on every path, because a charge bounds nothing in a context without a memory limit; (R-ENCBUF) callers of the UTF-8 encoder, which writes without checking, give it room for the longest (6-byte) encoding.",
 		NotDecided: "absence of every Go run-time error (nil dereference, arbitrary index expressions, map writes): Go's type system does not give that and a general bounds prover is out of reach; what the VM does with a hand-forged binary chunk that decodes successfully (there is no bytecode verifier in the repository); out-of-memory caused by a legitimately huge program-chosen size in a context without limits.",
 		Assumptions: []string{
 			"VTA+CHA call graph over-approximates calls; callbacks from standard-library frames are followed only when the entering module function can have supplied the callee (it converts a value of that type to an interface, references the function, or forwards interface/function parameters)",
